@@ -232,6 +232,24 @@ def handle (st : DState) (l : Line) : Option (DState × Except String String) :=
       let removed := ((totals st).2.1 + (totals st).2.2) - ((totals st').2.1 + (totals st').2.2)
       ret st' (.ok ("ok\t" ++ (if removed > 0 then "expired" else "nothing")))
     | .error e => ret st (.error e)
+  | "st.bg_loop" =>
+    -- the store's own expiry loop on a fresh store: one membership stamped at the (cached) clock `c`; ticks while
+    -- that clock stands still, then at c + life/2, then at c + life
+    match l.int "life", l.int "c" with
+    | .ok life, .ok c =>
+      let redis := l.get "kind" == "redis"
+      let p : Peer := peerOfKey (List.replicate 20 1 ++ [26, 225, 10, 0, 0, 1])
+      let ih : Bytes := List.replicate 20 7
+      let s0 : DState := { redis := redis, mem := MemStore.init 2, clock := c }
+      let s1 := putSeeder s0 ih p
+      let tick (s : DState) (clock : Int) : DState :=
+        if s.redis then { s with red := RedisStore.loopTick s.red clock life } else { s with mem := s.mem.loopTick clock life }
+      let k (s : DState) : Nat := (scrape s ih .v4).1
+      let a := tick s1 c
+      let b := tick a (c + life / 2)
+      let d := tick b (c + life)
+      ret st (.ok (s!"frozen_kept={k a} half_kept={k b} full_kept={k d}\tbgloop"))
+    | _, _ => ret st (.error "bad args")
   | "st.redis_gc_race" =>
     -- Any sequential order of {expiry pass with cutoff T, re-announce at a clock after T} keeps the peer:
     -- put-then-pass leaves mtime > T; pass-then-put re-adds it. The model applies them in that order.
